@@ -264,6 +264,14 @@ func init() {
 			c.Fail("", "marshalled geometry is not valid JSON", map[string]interface{}{"case": d(), "json": string(data)})
 			return
 		}
+		if _, isColl := g.(orb.Collection); !isColl && g != nil {
+			// the exported fields filled in by hand (the other way of building the value the package documents)
+			byHand := &geojson.Geometry{Type: g.GeoJSONType(), Coordinates: refmodel.Copy(g)}
+			if d2, err := byHand.MarshalJSON(); err != nil || !bytes.Equal(d2, data) {
+				c.Fail("", "a Geometry value with Type and Coordinates filled in by hand marshals differently from NewGeometry's", map[string]interface{}{"case": d(), "by_hand": string(d2), "new_geometry": string(data), "err": sv(err)})
+			}
+			c.Eval()
+		}
 		var generic interface{}
 		json.Unmarshal(data, &generic)
 		if e := c02shape(generic); e != "" {
@@ -358,6 +366,10 @@ func init() {
 		f := geojson.NewFeature(genGeom(r))
 		if r.P(1, 12) {
 			f.Geometry = nil
+		} else if r.P(1, 20) {
+			// a geometry that is a nil slice of its kind (what `var ls orb.LineString` gives): it has no coordinates to be
+			// nested, so the RFC shape clause does not apply to it, but it comes back as a (vertex-less) value of its kind
+			f.Geometry = []orb.Geometry{orb.MultiPoint(nil), orb.LineString(nil), orb.MultiLineString(nil), orb.Polygon(nil), orb.MultiPolygon(nil), orb.Ring(nil)}[r.Intn(6)]
 		}
 		switch r.Intn(3) {
 		case 0:
@@ -491,7 +503,7 @@ func init() {
 					json.Unmarshal(data, &generic)
 					if generic["type"] != "Feature" {
 						c.Fail("", "feature JSON has no \"type\":\"Feature\"", map[string]interface{}{"json": string(data)})
-					} else if e := c02shape(generic["geometry"]); e != "" {
+					} else if e := c02shape(generic["geometry"]); e != "" && !(f.Geometry != nil && isNilSlice(f.Geometry)) {
 						c.Fail("", "feature geometry is not RFC 7946 shaped: "+e, map[string]interface{}{"json": string(data)})
 					}
 					// BSON
